@@ -47,9 +47,10 @@ BigIntMags == { <<>>, One, <<255>>, <<256>>, <<5535, 6>>, <<5536, 6>>, Minus1(Pw
 BigIntStrs == { Dec(m) : m \in BigIntMags } \cup { Neg(Dec(m)) : m \in BigIntMags \ {<<>>} }
               \cup { Neg(<<48>>), <<48, 48, 55>> }                                                \* "-0", "007" (not JSON number syntax)
 BigInts == { Tg("bigint", Tx(s)) : s \in BigIntStrs }
-\* 255 / 256 magnitude bytes (one-byte / two-byte length argument)
-LongMags == { Minus1(Pw(2040)), Pw(2040), Plus1(Pw(2040)) }
-LongBigInts == { Tg("bigint", Tx(Dec(m))) : m \in LongMags } \cup { Tg("bigint", Tx(Neg(Dec(m)))) : m \in LongMags }
+\* 255 / 256 magnitude bytes (one-byte / two-byte length argument of the byte string).  2^2032 < 10^612 and 10^614 < 2^2040 < 10^615 < 2^2048:
+\* a number of 613 or 614 digits has 255 bytes, one of 616 digits has 256.  (Written as digit runs: BigNat!Pow2(2040) takes TLC 15 s.)
+LongStrs == { <<49>> \o Rep(48, 613), Rep(57, 614), <<49>> \o Rep(48, 615), <<50>> \o Rep(48, 614) \o <<55>> }
+LongBigInts == { Tg("bigint", Tx(s)) : s \in LongStrs } \cup { Tg("bigint", Tx(Neg(s))) : s \in LongStrs }
 
 (* bigdec: [-] ip [. fp] [e [+-] digits]  (integer-looking, fraction,        *)
 (* negative, exponent forms, mantissa beyond 64 bits, huge exponents)        *)
